@@ -56,6 +56,16 @@ def check(tier, seed, replay=None):
     events = core.rv(["simplex", "--cases", cpath])
     v = core.validate(SPEC_DIR, "SimplexTrace.tla", "SimplexTrace.cfg", events, prop, prop, chunks=12,
                       group=lambda e: e["run"].split("#")[0], heads=("RUN",))
+    # design level: Simplex.tla on its own, every admissible pivot choice, and Bland's rule
+    design = {}
+    if not replay:
+        for cfg in (("MC_q.cfg", "MC_qb.cfg") if tier == "quick" else ("MC_t.cfg", "MC_tb.cfg")):
+            rc, out = core.run_tlc(SPEC_DIR, "MCSimplex.tla", cfg, workers=8, tag="mcsimplex", xmx="8g")
+            g, dst = core.tlc_counts(out)
+            if rc != 0:
+                core.log(out[-3000:])
+                raise core.ToolError(f"design-level model check {cfg} failed (specification error, not an implementation verdict)")
+            design[cfg] = {"states": dst, "transitions": g}
     bycase = {c["id"]: c for c in cases}
     for r in v.rejects:
         run = r[2]
@@ -74,8 +84,9 @@ def check(tier, seed, replay=None):
             samples.append({"run": e["run"], "entering": e["h"], "leaving_row": e["t"], "bland": e["bland"], "observed_b_x1e4": e["obs"]["b"]})
     o.level = "model_checking"
     o.coverage = {
-        "states": v.distinct + sum(m.get("gen_states", 0) for m in meta.values()),
-        "transitions": v.generated + sum(m.get("gen_transitions", 0) for m in meta.values()),
+        "states": v.distinct + sum(m.get("gen_states", 0) for m in meta.values()) + sum(x["states"] for x in design.values()),
+        "transitions": v.generated + sum(m.get("gen_transitions", 0) for m in meta.values()) + sum(x["transitions"] for x in design.values()),
+        "design_model_check": design,
         "traces_validated_against_impl": begun,
         "samples": samples or [{"note": "none"}],
         "evaluations": len(events),
